@@ -1,6 +1,7 @@
 package main
 
 import (
+	"bytes"
 	"encoding/json"
 	"fmt"
 	"math"
@@ -8,6 +9,7 @@ import (
 	"os"
 	"path/filepath"
 	"sort"
+	"strings"
 
 	"github.com/go-spatial/geom"
 	"github.com/go-spatial/geom/slippy"
@@ -43,6 +45,44 @@ func docPath(name string) string {
 		return filepath.Join(repoDir(), "tms20", "testdata", name+".json")
 	}
 	return filepath.Join(repoDir(), "tms20", "tilematrixsets", name+".json")
+}
+
+// otherCorner rewrites a document so that every tile matrix (without variable widths) is described from the other
+// corner of origin: the y ordinate of the origin moves by the exact height of the matrix.
+func otherCorner(base string, b []byte) []byte {
+	dec := json.NewDecoder(bytes.NewReader(b))
+	dec.UseNumber()
+	var doc map[string]any
+	if err := dec.Decode(&doc); err != nil {
+		ev.HarnessError("%s: %v", base, err)
+	}
+	yi := 1
+	if northingFirst[base] {
+		yi = 0
+	}
+	for _, t := range doc["tileMatrices"].([]any) {
+		tm := t.(map[string]any)
+		if v, ok := tm["variableMatrixWidths"].([]any); ok && len(v) > 0 {
+			continue
+		}
+		po := tm["pointOfOrigin"].([]any)
+		hgt := new(big.Rat).Mul(rat(tm["cellSize"].(json.Number)), rat(tm["tileHeight"].(json.Number)))
+		hgt.Mul(hgt, rat(tm["matrixHeight"].(json.Number)))
+		y := rat(po[yi].(json.Number))
+		if c, _ := tm["cornerOfOrigin"].(string); c == "bottomLeft" {
+			tm["cornerOfOrigin"] = "topLeft"
+			y.Add(y, hgt)
+		} else {
+			tm["cornerOfOrigin"] = "bottomLeft"
+			y.Sub(y, hgt)
+		}
+		po[yi] = json.Number(strings.TrimRight(strings.TrimRight(y.FloatString(30), "0"), "."))
+	}
+	out, err := json.Marshal(doc)
+	if err != nil {
+		ev.HarnessError("%s: %v", base, err)
+	}
+	return out
 }
 
 // rawDoc: the document with exact decimal numbers
@@ -86,11 +126,28 @@ func runC15() {
 	samples := &ev.Samples{N: 4}
 	names := append(append([]string{}, builtins...), "SomethingWithBottomLeftAndLatLonAndDoubleHeight")
 	perSet := map[string]int64{}
+	type docIn struct {
+		name, base string
+		b          []byte
+	}
+	var docs []docIn
 	for _, name := range names {
 		b, err := os.ReadFile(docPath(name))
 		if err != nil {
 			ev.HarnessError("%v", err)
 		}
+		docs = append(docs, docIn{name, name, b})
+		// the same grid described from its other corner of origin (every shipped set is top-left, the test document
+		// bottom-left): both conventions on every matrix shape of every set
+		// (not for the test document: its CRS has an unknown authority, so its axis order is decided by axisOrderIsLatLon,
+		// finding F9 of DESIGN.md - outside C15, which speaks about the built-in sets; with its origin at (0,0) the
+		// document as shipped cannot observe that, a moved origin would)
+		if name != "SomethingWithBottomLeftAndLatLonAndDoubleHeight" {
+			docs = append(docs, docIn{name + "(other-corner-of-origin)", name, otherCorner(name, b)})
+		}
+	}
+	for _, dc := range docs {
+		name, b := dc.name, dc.b
 		var raw rawDoc
 		if err := json.Unmarshal(b, &raw); err != nil {
 			ev.HarnessError("%s: %v", name, err)
@@ -106,7 +163,7 @@ func runC15() {
 			var z int
 			fmt.Sscanf(tm.ID, "%d", &z)
 			ox, oy := rat(tm.PointOfOrigin[0]), rat(tm.PointOfOrigin[1])
-			if northingFirst[name] {
+			if northingFirst[dc.base] {
 				ox, oy = oy, ox
 			}
 			tsx := new(big.Rat).Mul(rat(tm.CellSize), big.NewRat(tm.TileWidth, 1))
@@ -156,6 +213,29 @@ func runC15() {
 				}
 				sort.Slice(out, func(i, j int) bool { return out[i] < out[j] })
 				return out
+			}
+			// tiles one past the last column / row: ToNative accepts them (their corner closes the grid); tile (w,h) is the
+			// far corner of the bounding box
+			for _, tx := range append(classes(w), w) {
+				for _, ty := range append(classes(h), h) {
+					if tx < w && ty < h {
+						continue
+					}
+					states++
+					tile := slippy.NewTile(uint(z), uint(tx), uint(ty))
+					got, ok := tms.ToNative(tile)
+					trans++
+					wantX := ratF(cornerX(tx))
+					wy := ty
+					if bottomLeft {
+						wy = ty + 1
+					}
+					wantY := ratF(cornerY(wy))
+					if !ok || math.Abs(got[0]-wantX) > tol(wantX) || math.Abs(got[1]-wantY) > tol(wantY) {
+						r.Violation("toNative-closing-corner", fmt.Sprintf("%s matrix %d tile (%d,%d) (matrix is %dx%d): ToNative = %v ok=%v, exact top-left corner is (%v, %v)", name, z, tx, ty, w, h, got, ok, wantX, wantY),
+							c15Case{Set: name, Matrix: z, Tile: [2]uint{uint(tx), uint(ty)}, Got: fmt.Sprint(got, ok), Want: fmt.Sprint(wantX, wantY)})
+					}
+				}
 			}
 			for _, tx := range classes(w) {
 				for _, ty := range classes(h) {
@@ -259,7 +339,7 @@ func runC15() {
 	r.Finish(map[string]any{
 		"states": states, "transitions": trans, "traces_validated_against_impl": 0, "samples": samples.L,
 		"evaluations": trans, "distinct_nontrivial": nontrivial,
-		"rule":       "state = (set, tile matrix without variable widths, tile) for all tiles when the matrix has <= 4096 tiles (thorough 65536), else the product of the column classes {0,1,2,w/2-1,w/2,w-3,w-2,w-1} and the same row classes, plus 8 outside points per matrix; transitions = ToNative, FromNative at 5 interior points per tile, MatrixBoundingBox; non-trivial = FromNative evaluations at interior points",
+		"rule":       "sets = the 14 shipped documents and the test document, each also rewritten to the other corner of origin (same grid); state = (set, tile matrix without variable widths, tile) for all tiles when the matrix has <= 4096 tiles (thorough 65536), else the product of the column classes {0,1,2,w/2-1,w/2,w-3,w-2,w-1} and the same row classes, plus 8 outside points per matrix; transitions = ToNative (also for the tiles one past the last column/row, whose corners close the grid: tile (w,h) is the far corner of the bounding box), FromNative at 5 interior points per tile, MatrixBoundingBox; non-trivial = FromNative evaluations at interior points",
 		"exhaustive": true, "tiles_per_set": perSet,
 	})
 }
